@@ -6,6 +6,8 @@ import ZlModel.Proto
 import ZlModel.Framework
 import ZlModel.Scope
 import ZlModel.Generated.Tables
+import ZlModel.Generated.Registry
+import ZlModel.Registry
 open Zl Zl.Proto
 
 namespace Zl.Driver
@@ -87,9 +89,83 @@ def opFw (fields : List String) : String :=
         ++ " | " ++ " ".intercalate results ++ " | " ++ " ".intercalate logs
   | _ => "bad-op"
 
+
+/-! ### registry / filter ops -/
+
+def kindOfNat (n : Nat) : Kind := if n == 0 then .cert else if n == 1 then .crl else .ocsp
+
+def regErrName : RegErr → String
+  | .nilLint => "nilLint" | .nilLintPtr => "nilLintPtr" | .emptyName => "emptyName" | .duplicate _ => "duplicate"
+
+/-- registry of a default build, rebuilt by registering the regenerated runtime table in order -/
+def globalModelRegistry : Registry Unit Unit :=
+  Generated.runtimeLints.foldl (fun r l =>
+    match r.register (kindOfNat l.kind) { md := { name := l.name, source := l.source }, payload := () } with
+    | .ok r' => r'
+    | .error _ => r) { cfg := () }
+
+/-- "H:kind:hexname:source:outcome;…" → registry after the registration sequence, with the model's outcomes -/
+def buildModelRegistry (spec : String) : Registry Unit Unit × List String :=
+  if spec == "G" then (globalModelRegistry, []) else
+  let body := dropS spec 2
+  (splitList body ";").foldl (fun (acc : Registry Unit Unit × List String) part =>
+    match part.splitOn ":" with
+    | [kind, hname, source, _] =>
+      let name := (unhex hname).getD ""
+      let k : Kind := if kind == "crl" then .crl else if kind == "ocsp" then .ocsp else .cert
+      let e : Entry Unit := { md := { name := name, source := source, description := "d" }, payload := (),
+                              ctorNil := kind == "nil", instNil := kind == "certnilctor" }
+      match acc.1.register k e with
+      | .ok r' => (r', acc.2 ++ ["ok"])
+      | .error err => (acc.1, acc.2 ++ [regErrName err])
+    | _ => acc) ({ cfg := () }, [])
+
+def hexList (xs : List String) : String := if xs.isEmpty then "-" else ",".intercalate (xs.map (fun x => if x == "" then "_" else hexOf x))
+
+def regDump (r : Registry Unit Unit) : String :=
+  let ls (lk : Lookup Unit) := hexList (lk.lints.map (fun e => e.md.name ++ "/" ++ e.md.source))
+  let agree (lk : Lookup Unit) : Bool := lk.lints.all (fun e => match lk.byNameGet e.md.name with
+    | some e' => e'.md == e.md
+    | none => false)
+  "cert=" ++ ls r.cert ++ "|crl=" ++ ls r.crl ++ "|ocsp=" ++ ls r.ocsp ++ "|names=" ++ hexList r.names
+    ++ "|sources=" ++ hexList (sortStrings r.sources)
+    ++ "|kn=" ++ hexList r.cert.names ++ ";" ++ hexList r.crl.names ++ ";" ++ hexList r.ocsp.names
+    ++ "|agree=" ++ b2s (agree r.cert && agree r.crl && agree r.ocsp)
+
+def unhexList (s : String) : List String := (splitList s ",").map (fun h => if h == "_" then "" else (unhex h).getD "")
+
+def opRegister (fields : List String) : String :=
+  match fields with
+  | [spec] =>
+    let (r, outcomes) := buildModelRegistry spec
+    -- the outcome column of the spec is the implementation's; a differing model outcome is made visible
+    let implOutcomes := (splitList (dropS spec 2) ";").map (fun part => (part.splitOn ":").getLast?.getD "")
+    if implOutcomes != outcomes then "reg OUTCOMES-DIFFER model=" ++ ",".intercalate outcomes
+    else "reg " ++ regDump r
+  | _ => "bad-op"
+
+def opFilter (fields : List String) : String :=
+  match fields with
+  | [spec, nf, inc, exc, isrc, xsrc] =>
+    let (r, _) := buildModelRegistry spec
+    let nameFilter : Option (String → Bool) :=
+      if nf == "none" then none else
+      let set := unhexList (dropS nf 4)
+      some (fun n => set.contains n)
+    let opts : FilterOptions := { nameFilter := nameFilter, includeNames := unhexList inc, excludeNames := unhexList exc,
+                                  includeSources := unhexList isrc, excludeSources := unhexList xsrc }
+    match filter r opts with
+    | .error (.unknownName _) => "err:unknown src-unchanged=1"
+    | .error .nameFilterConflict => "err:conflict src-unchanged=1"
+    | .error (.register e) => "err:register:" ++ regErrName e ++ " src-unchanged=1"
+    | .ok r' => "ok " ++ regDump r' ++ "|same=" ++ b2s opts.empty ++ "|cfg=1|src-unchanged=1"
+  | _ => "bad-op"
+
 def step (line : String) : String :=
   match line.splitOn "\t" with
   | "fw" :: rest => opFw rest
+  | "filter" :: rest => opFilter rest
+  | "register" :: rest => opRegister rest
   | _ => "bad-op"
 
 partial def loop (h : IO.FS.Stream) (out : IO.FS.Stream) : IO Unit := do
